@@ -479,6 +479,17 @@ void SoPlexBase<R>::_optimizeRational(volatile bool* interrupt)
    }
    while(!_isSolveStopped(stoppedTime, stoppedIter));
 
+   // the loop also ends when a limit is reached between two rounds (after a "continue"); the status then still is the
+   // one of the last round (UNKNOWN, or ERROR before a precision boost) although the solve was stopped by the limit
+   if(_status != SPxSolverBase<R>::OPTIMAL && _status != SPxSolverBase<R>::INFEASIBLE
+         && _status != SPxSolverBase<R>::UNBOUNDED)
+   {
+      if(stoppedTime)
+         _status = SPxSolverBase<R>::ABORT_TIME;
+      else if(stoppedIter)
+         _status = SPxSolverBase<R>::ABORT_ITER;
+   }
+
    // reset old basis flags for future optimization runs
    _switchedToBoosted = false;
    _hasOldBasis = false;
